@@ -192,3 +192,56 @@ Ltac npsimp :=
       | |- np (if ?x then _ else _) => destruct x
       | |- np (let '(_, _) := ?x in _) => destruct x
       end ].
+
+(* ---- relations between the API state before and after ---- *)
+Definition keeps {A} (R : world -> world -> Prop) (m : M A) : Prop :=
+  forall st r st', m st = (r, st') -> R (rs_api st) (rs_api st').
+Section Keeps.
+Variable R : world -> world -> Prop.
+Hypothesis Rrefl : forall w, R w w.
+Hypothesis Rtrans : forall a b c, R a b -> R b c -> R a c.
+Lemma keeps_ret {A} (a : A) : keeps R (ret a).
+Proof. intros st r st' E. inversion E; subst. apply Rrefl. Qed.
+Lemma keeps_fail {A} e : keeps R (@fail A e).
+Proof. intros st r st' E. inversion E; subst. apply Rrefl. Qed.
+Lemma keeps_panic {A} p : keeps R (@panic A p).
+Proof. intros st r st' E. inversion E; subst. apply Rrefl. Qed.
+Lemma keeps_fuel {A} : keeps R (@out_of_fuel A).
+Proof. intros st r st' E. inversion E; subst. apply Rrefl. Qed.
+Lemma keeps_bind {A B} (m : M A) (f : A -> M B) : keeps R m -> (forall a, keeps R (f a)) -> keeps R (bind m f).
+Proof.
+  intros Hm Hf st r st' E. unfold bind in E. destruct (m st) as [ra s1] eqn:Em. pose proof (Hm _ _ _ Em) as H1.
+  destruct ra as [a|e|p|]; try (inversion E; subst; exact H1).
+  eapply Rtrans; [exact H1 | eapply Hf; exact E].
+Qed.
+Lemma keeps_try {A} (m : M A) : keeps R m -> keeps R (try m).
+Proof.
+  intros Hm st r st' E. unfold try in E. destruct (m st) as [ra s1] eqn:Em. pose proof (Hm _ _ _ Em) as H1.
+  destruct ra; inversion E; subst; exact H1.
+Qed.
+Lemma keeps_call {A} (c : call) (apply : world -> (A + errkind) * world) :
+  (forall w x w', apply w = (x, w') -> R w w') -> keeps R (call_api c apply).
+Proof.
+  intros Ha st r st' E. unfold call_api in E. destruct (take_fault _ _ _) as [fo fs'].
+  destruct fo as [f|].
+  - destruct f; try (inversion E; subst; apply Rrefl).
+    destruct (apply (rs_api st)) as [x w'] eqn:Ea. inversion E; subst. cbn. eapply Ha. exact Ea.
+  - destruct (apply (rs_api st)) as [[a|e] w'] eqn:Ea; inversion E; subst; cbn; eapply Ha; exact Ea.
+Qed.
+Lemma keeps_forM {A} (l : list A) (f : A -> M unit) : (forall x, keeps R (f x)) -> keeps R (forM l f).
+Proof.
+  intros H. induction l as [|x t IH]; cbn [forM]; [apply keeps_ret|]. apply keeps_bind; [apply H | intros _; exact IH].
+Qed.
+End Keeps.
+
+Ltac kpsimp Rr Rt :=
+  repeat first
+    [ apply (keeps_ret _ Rr) | apply (keeps_fail _ Rr) | apply (keeps_panic _ Rr) | apply (keeps_fuel _ Rr)
+    | apply (keeps_bind _ Rt); [|intros ?]
+    | apply keeps_try
+    | apply (keeps_forM _ Rr Rt); intros ?
+    | match goal with
+      | |- keeps _ (match ?x with _ => _ end) => destruct x
+      | |- keeps _ (if ?x then _ else _) => destruct x
+      | |- keeps _ (let '(_, _) := ?x in _) => destruct x
+      end ].
